@@ -58,10 +58,21 @@ def gen(run_seed: int, tier: str) -> dict:
     nobj = 1
     uid = [0]
 
-    def new_content(lang):
+    meta = dict(world.get("meta", {}))
+
+    def new_content(lang, rel=None):
         uid[0] += 1
-        return cpool.gen_file(t, lang, f"e{uid[0]}", [t.draw(ndup, "dupid")] if t.chance(2, 3, "hasdup") else [],
-                              [t.draw(nstr, "strid")] if t.chance(1, 2, "hasstr") else [])
+        m = meta.get(rel) if rel else None
+        if m and m["lang"] == lang and t.chance(1, 2, "same_meta"):
+            # same planted duplicates / string sets, fresh draws for everything else (suppression
+            # directives, surrounding blocks): the edit flips details of a file other files still relate to
+            dups, strs = m["dups"], m["strs"]
+        else:
+            dups = [t.draw(ndup, "dupid")] if t.chance(2, 3, "hasdup") else []
+            strs = [t.draw(nstr, "strid")] if t.chance(1, 2, "hasstr") else []
+        if rel:
+            meta[rel] = {"lang": lang, "dups": dups, "strs": strs}
+        return cpool.gen_file(t, lang, f"e{uid[0]}", dups, strs)
 
     def lang_of(rel):
         for l, e in cpool.LANG_EXT.items():
@@ -109,11 +120,24 @@ def gen(run_seed: int, tier: str) -> dict:
             op["abs"] = True if cwd != rootname else bool(t.draw(2, "abs"))
             ops.append(op)
         elif k < 85:
-            ev = t.pick(["edit", "edit", "delete", "add", "rename", "touch"], "event")
+            ev = t.pick(["edit", "edit", "delete", "add", "rename", "touch", "directive", "directive"], "event")
             fs = sorted(files)
-            if ev == "edit":
+            if ev == "directive":
+                # flip suppression directives in place, keeping everything else where it is
+                with_dir = [f for f in fs if "dry: ignore" in files[f] or "thailint: ignore-start" in files[f]]
+                plain = [f for f in fs if f.endswith(".py") and "\ndef dup_" in files[f] and f not in with_dir]
+                if with_dir and (not plain or t.chance(2, 3, "strip")):
+                    rel = t.pick(with_dir, "rel")
+                    keep = [ln for ln in files[rel].split("\n") if "dry: ignore" not in ln and "thailint: ignore-" not in ln]
+                    files[rel] = "\n".join(keep)
+                    ops.append({"op": "edit", "rel": rel, "content": files[rel], "why": "strip-directives"})
+                elif plain:
+                    rel = t.pick(plain, "rel")
+                    files[rel] = files[rel].replace("\ndef dup_", "\n# dry: ignore-block\ndef dup_", 1)
+                    ops.append({"op": "edit", "rel": rel, "content": files[rel], "why": "add-directive"})
+            elif ev == "edit":
                 rel = t.pick(fs, "rel")
-                files[rel] = new_content(lang_of(rel))
+                files[rel] = new_content(lang_of(rel), rel)
                 ops.append({"op": "edit", "rel": rel, "content": files[rel]})
             elif ev == "delete" and len(fs) > 2:
                 rel = t.pick(fs, "rel")
@@ -124,7 +148,7 @@ def gen(run_seed: int, tier: str) -> dict:
                 uid[0] += 1
                 d = t.pick(cpool.DIRS, "dir")
                 rel = (d + "/" if d else "") + f"added_{uid[0]}{cpool.LANG_EXT[lang]}"
-                files[rel] = new_content(lang)
+                files[rel] = new_content(lang, rel)
                 ops.append({"op": "add", "rel": rel, "content": files[rel]})
             elif ev == "rename":
                 rel = t.pick(fs, "rel")
@@ -132,6 +156,8 @@ def gen(run_seed: int, tier: str) -> dict:
                 d = t.pick(cpool.DIRS, "dir")
                 new = (d + "/" if d else "") + f"moved_{uid[0]}" + os.path.splitext(rel)[1]
                 files[new] = files.pop(rel)
+                if rel in meta:
+                    meta[new] = meta.pop(rel)
                 ops.append({"op": "rename", "rel": rel, "new": new})
             else:
                 rel = t.pick(fs, "rel")
@@ -160,6 +186,8 @@ def gen(run_seed: int, tier: str) -> dict:
     if not any(o["op"] == "oneshot" for o in ops):
         ops.append({"op": "oneshot", "cmd": t.pick(CLI_CMDS, "cmd"), "parallel": bool(t.draw(2, "par")),
                     "targets": ["."], "cpu": 1 + t.draw(8, "cpu")})
+    world.pop("meta", None)
+    world2.pop("meta", None)
     return {"world": world, "world2": world2, "ops": ops, "mirror": True}
 
 
